@@ -207,8 +207,18 @@ def ensure():
         return dest, json.load(fd)
 
 
+_LOADED = None
+
+
 def load():
     """Return (entries, manifest); entries = [{"name", "variant", "data", "sha256"}] sorted by name."""
+    global _LOADED
+    if _LOADED is None:
+        _LOADED = _load()
+    return _LOADED
+
+
+def _load():
     dest, manifest = ensure()
     out = []
     for rec in sorted(manifest, key=lambda r: r["name"]):
